@@ -4,14 +4,15 @@
 # demonstrations default to): applies, compiles, keeps the stable baseline passing, and the
 # demonstration fails with the change and passes without it. Prints one RESULT line.
 C="$1"; M="$2"
-SEED=/verif/seeded_unverified/$C-$M
-ORIG=/tmp/seed/$C/out/$M
-WT=/tmp/seed/$C/wt
-LOG=/tmp/seed/$C/verify-$M.log
+B=${SEEDBASE:-/tmp/seed}
+SEED=${SEEDSRC:-/verif/seeded_unverified}/$C-$M
+ORIG=$B/$C/out/$M
+WT=$B/$C/wt
+LOG=$B/$C/verify-$M.log
 : > $LOG
 fail() { echo "RESULT $C-$M $1"; exit 0; }
 [ -d "$ORIG/demo" ] || { mkdir -p $ORIG; cp -r $SEED/* $ORIG/; }
-cp $SEED/patch.diff $ORIG/patch.diff
+[ -f $SEED/patch.diff ] && cp $SEED/patch.diff $ORIG/patch.diff
 cd /repo || exit 3
 git worktree remove --force $WT >/dev/null 2>&1
 git worktree add -q --detach $WT HEAD >>$LOG 2>&1 || fail "worktree-failed"
@@ -19,11 +20,11 @@ cd $WT
 git apply $ORIG/patch.diff >>$LOG 2>&1 || { cd /repo; git worktree remove --force $WT; fail "patch-does-not-apply"; }
 GOPROXY=off go build ./... >>$LOG 2>&1 || { cd /repo; git worktree remove --force $WT; fail "does-not-compile"; }
 # existing tests with the change
-GOPROXY=off go test -json -vet=off -count=1 -timeout 25m ./... > /tmp/seed/$C/test-$M.json 2>>$LOG
+GOPROXY=off go test -json -vet=off -count=1 -timeout 25m ./... > $B/$C/test-$M.json 2>>$LOG
 NP=$(python3 - <<PY
 import json
 base=json.load(open('/root/.vp/BASELINE.json')); stable=set(base['stable_pass']); res={}
-for l in open('/tmp/seed/$C/test-$M.json'):
+for l in open('$B/$C/test-$M.json'):
     try: e=json.loads(l)
     except: continue
     if e.get('Test') and e.get('Action') in('pass','fail','skip'): res[e['Package']+'::'+e['Test']]=e['Action']
@@ -31,7 +32,7 @@ missing=[t for t in stable if res.get(t)!='pass' and 'TestRunWithConcurrentShutd
 print(len(missing), ' '.join(missing[:3]))
 PY
 )
-rm -f /tmp/seed/$C/test-$M.json
+rm -f $B/$C/test-$M.json
 case "$NP" in 0*) ;; *) cd /repo; git worktree remove --force $WT; fail "existing-tests-fail:$NP";; esac
 # the demonstration
 run_demo() {
@@ -56,5 +57,5 @@ cd $WT && git checkout -- . >>$LOG 2>&1
 echo "=== demo WITHOUT change" >>$LOG
 run_demo; WITHOUT=$?
 cd /repo; git worktree remove --force $WT >/dev/null 2>&1
-rm -rf /tmp/seed/$C/grog-bin
+rm -rf $B/$C/grog-bin
 if [ $WITH -ne 0 ] && [ $WITHOUT -eq 0 ]; then echo "RESULT $C-$M CONFIRMED (demo rc with=$WITH without=$WITHOUT)"; else echo "RESULT $C-$M NOT-CONFIRMED (demo rc with=$WITH without=$WITHOUT)"; fi
